@@ -574,6 +574,76 @@ func checkC13(c *Check, p *Program) {
 		c.Decide(st.Parent() == a.ctor && isLoadOf(st.Val, a.pauseCfg), "C13.P2", FuncName(st.Parent())+" sets postSendPause", p.InstrPos(st), "constructor stores config.PostSendPauseDuration", "Router.postSendPause is written with "+describe(st.Val)+" (not the configured pause, or after construction)")
 	}
 	c.Floor("C13.P2", "stores to Router.postSendPause", len(ix.stores[a.pause]), 1)
+	// the configured pause reaches the constructor undiminished: a function that normalises a configuration it
+	// was handed (a parameter, by value or by pointer) may replace the pause only where it is not positive, or by
+	// a constant that is at least every value the guarding comparison lets through
+	nNorm := 0
+	for _, st := range ix.stores[a.pauseCfg] {
+		fa, ok := st.Addr.(*ssa.FieldAddr)
+		if !ok {
+			continue
+		}
+		fromParam := false
+		switch b := fa.X.(type) {
+		case *ssa.Parameter:
+			fromParam = true
+		case *ssa.Alloc:
+			for _, cs := range cellStores(b) {
+				if _, isP := cs.Val.(*ssa.Parameter); isP {
+					fromParam = true
+				}
+			}
+		}
+		if !fromParam {
+			continue
+		}
+		nNorm++
+		sameField := func(v ssa.Value) bool {
+			u, ok := unspill(v).(*ssa.UnOp)
+			if !ok || u.Op != token.MUL {
+				return false
+			}
+			f2, ok := u.X.(*ssa.FieldAddr)
+			return ok && f2.X == fa.X && f2.Field == fa.Field
+		}
+		okSt, why := false, "the assignment is not guarded by a comparison of the configured pause"
+		k, isK := constInt(st.Val)
+		for _, f := range factsAt(st.Block()) {
+			op, x, y := f.Op, f.X, f.Y
+			if sameField(y) && !sameField(x) {
+				op, x, y = swapOp(op), y, x
+			}
+			if !sameField(x) {
+				continue
+			}
+			u, isU := constInt(y)
+			if !isU {
+				continue
+			}
+			switch {
+			case (op == token.LEQ || op == token.EQL) && u <= 0, op == token.LSS && u <= 1:
+				okSt = !isK || k >= 0
+				why = "a negative pause is stored"
+			case op == token.LSS && isK:
+				if k >= u-1 {
+					okSt = true
+				} else {
+					why = fmt.Sprintf("pauses below %d are replaced by the smaller constant %d", u, k)
+				}
+			case op == token.LEQ && isK:
+				if k >= u {
+					okSt = true
+				} else {
+					why = fmt.Sprintf("pauses up to %d are replaced by the smaller constant %d", u, k)
+				}
+			}
+			if okSt {
+				break
+			}
+		}
+		c.Decide(okSt, "C13.P2", FuncName(st.Parent())+" never shortens the configured pause", p.InstrPos(st), "the pause is replaced only where it is not positive, or by a constant at least as large as what it replaces", "the configured post-send pause can be replaced by a shorter one: "+why+" (time.Duration counts nanoseconds)")
+	}
+	c.OK("C13.P2", "configuration normalisers assigning the pause", "", fmt.Sprintf("%d assignment(s) to the pause of a configuration parameter", nNorm))
 
 	// ---- P3 busy back-off
 	if a.busyBlock == nil {
@@ -763,6 +833,36 @@ func checkBusyWait(c *Check, p *Program, a *routerAnchors, after ssa.Instruction
 		}
 		return false
 	}
+	// at least the announced time: the wait time itself, plus non-negative terms, on every path
+	var geWait func(v ssa.Value, depth int) bool
+	geWait = func(v ssa.Value, depth int) bool {
+		if depth > 10 {
+			return false
+		}
+		switch x := v.(type) {
+		case *ssa.UnOp:
+			if isLoadOf(x, waitF) {
+				sawWait = true
+				return true
+			}
+		case *ssa.BinOp:
+			if x.Op == token.ADD {
+				return (geWait(x.X, depth+1) && nonneg(x.Y, depth+1)) || (geWait(x.Y, depth+1) && nonneg(x.X, depth+1))
+			}
+		case *ssa.Phi:
+			for _, e := range x.Edges {
+				if !geWait(e, depth+1) {
+					return false
+				}
+			}
+			return len(x.Edges) > 0
+		case *ssa.Convert:
+			return geWait(x.X, depth+1)
+		case *ssa.ChangeType:
+			return geWait(x.X, depth+1)
+		}
+		return false
+	}
 	ph, isPhi := w.(*ssa.Phi)
 	if !isPhi {
 		clampOK = false
@@ -791,7 +891,7 @@ func checkBusyWait(c *Check, p *Program, a *routerAnchors, after ssa.Instruction
 				}
 				return false
 			})
-			if !guard || !nonneg(e, 0) {
+			if !guard || !geWait(e, 0) {
 				clampOK = false
 			}
 		}
